@@ -9,10 +9,12 @@ mod rng;
 
 mod c01;
 mod c02;
+mod c04;
 mod c05;
 mod c06;
 mod c08;
 mod c09;
+mod c10;
 mod parsers;
 mod samples;
 mod pk;
@@ -35,10 +37,12 @@ fn build(id: &str, ctx: &Ctx) -> Option<Property> {
     Some(match id {
         "C01" => c01::build(ctx),
         "C02" => c02::build(ctx),
+        "C04" => c04::build(ctx),
         "C05" => c05::build(ctx),
         "C06" => c06::build(ctx),
         "C08" => c08::build(ctx),
         "C09" => c09::build(ctx),
+        "C10" => c10::build(ctx),
         "C12" => c12::build(ctx),
         _ => return None,
     })
